@@ -187,6 +187,24 @@ func genPhases() {
 								seq = append(seq, "recv:_."+se.Sel.Name)
 							}
 						}
+					case *ast.FuncLit:
+						// a closure: its body is bracketed, so that what happens inside the function handed to
+						// startExecution / g.Go can be told from what happens after the call returned
+						seq = append(seq, "closure{")
+						walk(x.Body, deferred)
+						seq = append(seq, "}closure")
+						return false
+					case *ast.CompositeLit:
+						// error values built here: `&errors.TaskRunError{…}` (the wrapping `main` turns into 201 /
+						// the command's status) and literals of a package-local type (the private failure marker)
+						switch t := x.Type.(type) {
+						case *ast.SelectorExpr:
+							if t.Sel.Name == "TaskRunError" {
+								seq = append(seq, "wrap:TaskRunError")
+							}
+						case *ast.Ident:
+							seq = append(seq, "mark:local")
+						}
 					case *ast.CallExpr:
 						if k := interesting(norm(x)); k != "" {
 							if deferred {
